@@ -12,24 +12,31 @@ Record Fo (m : N) (w w' : world) : Prop := {
   fo_fes : w_fes w' = w_fes w;
   fo_cur : w_cur w' = w_cur w;
   fo_inc : inc (w_mod w' m) = inc (w_mod w m);
-  fo_nw : nw (w_mod w' m) = nw (w_mod w m) }.
+  fo_nw : nw (w_mod w' m) = nw (w_mod w m);
+  fo_buf : exists l, w_buf w' = w_buf w ++ l /\ Forall msg_ev l }.
 
 Lemma Fo_refl m w : Fo m w w.
-Proof. constructor; reflexivity. Qed.
+Proof. constructor; try reflexivity. exists []. rewrite app_nil_r. split; [reflexivity|constructor]. Qed.
 
 Lemma Fo_trans m w1 w2 w3 : Fo m w1 w2 -> Fo m w2 w3 -> Fo m w1 w3.
 Proof.
-  intros [a1 a2 a3 a4 a5] [b1 b2 b3 b4 b5]. constructor; try congruence. intros i Hi. rewrite b1, a1; auto.
+  intros [a1 a2 a3 a4 a5 (la & a6 & a7)] [b1 b2 b3 b4 b5 (lb & b6 & b7)]. constructor; try congruence.
+  - intros i Hi. rewrite b1, a1; auto.
+  - exists (la ++ lb). rewrite b6, a6, app_assoc. split; [reflexivity|apply Forall_app; auto].
 Qed.
 
 Lemma Fr_Fo m w w' : Fr m w w' -> Fo m w w'.
-Proof. intros [a1 a2 a3 a4 a5 a6 a7]. constructor; auto. Qed.
+Proof. intros [a1 a2 a3 a4 a5 a6 a7 a8]. constructor; auto. Qed.
 
 Lemma Fo_set_active m w a : Fo m w (set_mod w m (set_active (w_mod w m) a)).
-Proof. constructor; try reflexivity; rewrite ?mod_same; try reflexivity. intros i Hi. apply mod_other, Hi. Qed.
+Proof.
+  constructor; try reflexivity; rewrite ?mod_same; try reflexivity.
+  - intros i Hi. apply mod_other, Hi.
+  - exists []. rewrite app_nil_r. split; [reflexivity|constructor].
+Qed.
 
 Lemma Fo_set_err m w e : Fo m w (set_err w e).
-Proof. constructor; reflexivity. Qed.
+Proof. constructor; try reflexivity. exists []. rewrite app_nil_r. split; [reflexivity|constructor]. Qed.
 
 Lemma catch_Fo c m p w : Fo m w (fst (catch c m p w)).
 Proof.
@@ -181,7 +188,7 @@ Qed.
 Lemma around_oth sc now m f w i : CbOK m f -> i <> m -> w_mod (fst (around sc now m f w)) i = w_mod w i.
 Proof.
   intros Hf Hi. unfold around.
-  destruct (Hf {| x_w := activate now m w; x_log := [] |}) as [[F _ _ _ _] _].
+  destruct (Hf {| x_w := activate now m w; x_log := [] |}) as [[F _ _ _ _ _] _].
   set (s := f {| x_w := activate now m w; x_log := [] |}) in *.
   pose proof (buf_process_oth (cfg sc m) now m (deactivate m (x_w s)) i Hi) as H.
   destruct (buf_process (cfg sc m) now m (deactivate m (x_w s))) as [w' l]. cbn [fst] in *.
